@@ -222,14 +222,37 @@ def run(ctx: Ctx, rs: RuleSet, tier: str):
     raise AnalysisError('NodeSelection.replace.traverse not found')
   g = ctx.cfg(tr)
   nd = tr.params[0]
-  # match branch returns the replacement (deep-copied per flag)
-  ok = False
-  for n in walk_function(tr.node):
-    if isinstance(n, ast.If) and unparse(n.test) == f'self._matches({nd})':
-      r = n.body[0] if n.body else None
-      ok = isinstance(r, ast.Return) and r.value is not None and (
-          rp.params[1] in unparse(r.value)) and nd not in [
-              x.id for x in ast.walk(r.value) if isinstance(x, ast.Name)]
+  from fdlstatic import dispatch
+  selfp = rp.params[0]
+
+  def _atoms(matches, is_buildable):
+    def ev(t):
+      if isinstance(t, ast.Call) and unparse(t.func) == f'{selfp}._matches' and (
+          [unparse(a) for a in t.args] == [nd]):
+        return matches
+      if isinstance(t, ast.Call) and unparse(t.func) == 'isinstance' and len(
+          t.args) == 2 and unparse(t.args[0]) == nd and unparse(
+              t.args[1]).endswith('Buildable'):
+        return is_buildable
+      # every Buildable class registers a traverser
+      if is_buildable and isinstance(t, ast.Call) and unparse(
+          t.func).endswith('.is_traversable') and [
+              unparse(a) for a in t.args] == [nd]:
+        return True
+      return None
+    return ev
+
+  def _returns(nodes):
+    return [g.stmt[n] for n in nodes if isinstance(g.stmt[n], ast.Return)
+            and g.stmt[n].value is not None]
+
+  # a matching node: every result is the replacement value, never the node
+  r_match = dispatch.reach_atoms(g, _atoms(True, None))
+  rm = _returns(r_match)
+  ok = bool(rm) and all(
+      rp.params[1] in unparse(r.value) and nd not in [
+          x.id for x in ast.walk(r.value) if isinstance(x, ast.Name)]
+      for r in rm)
   rs.check(ok, rule, f'{tr.qualname}:match',
            'a matching node is replaced by the value (deep-copied when '
            'requested)', ctx.loc(tr, tr.node))
@@ -247,24 +270,24 @@ def run(ctx: Ctx, rs: RuleSet, tier: str):
   ok = len(mv) == 1 and kwarg(mv[0], 'destination') is not None and unparse(
       kwarg(mv[0], 'destination')) == nd and unparse(
           kwarg(mv[0], 'source')) in rebuilt_vars
-  guard = [n for n in walk_function(tr.node) if isinstance(n, ast.If) and
-           isinstance(n.test, ast.Call) and
-           unparse(n.test.func) == 'isinstance' and
-           unparse(n.test.args[0]) == nd and
-           unparse(n.test.args[1]).endswith('Buildable')]
-  ok = ok and len(guard) == 1 and any(
-      sub is mv[0] for sub in ast.walk(ast.Module(body=guard[0].body,
-                                                  type_ignores=[])))
+  mv_nodes = [n for n in g.nodes() if mv and any(
+      e is mv[0] for e in cfg_lib.walk_node(g, n))]
+  r_build = dispatch.reach_atoms(g, _atoms(False, True))
+  r_other = dispatch.reach_atoms(g, _atoms(False, False))
+  # the move happens on every path of a non-matching Buildable and on no path
+  # of another value
+  ok = ok and bool(mv_nodes) and all(m in r_build for m in mv_nodes) and not any(
+      m in r_other for m in mv_nodes) and g.exit not in dispatch.reach_atoms(
+          g, _atoms(False, True), stop=set(mv_nodes))
   rs.check(ok, rule, f'{tr.qualname}:buildable',
            'for a non-matching Buildable the rebuilt internals are moved into '
            'the original object', ctx.loc(tr, tr.node))
-  rets = [r for r in walk_function(tr.node) if isinstance(r, ast.Return)]
-  tail = [r for r in rets if unparse(r.value) == nd]
-  reassign_in_guard = bool(guard) and any(
-      isinstance(s, ast.Assign) and unparse(s.targets[0]) == nd
-      for s in walk_stmts(guard[0].body))
-  rs.check(len(tail) >= 1 and not reassign_in_guard, rule,
-           f'{tr.qualname}:identity',
+  rb = _returns(r_build)
+  reassigned = [n for n in r_build if isinstance(g.stmt[n], ast.Assign) and
+                g.kind[n] == 'stmt' and any(unparse(t) == nd
+                                            for t in g.stmt[n].targets)]
+  rs.check(bool(rb) and all(unparse(r.value) == nd for r in rb) and
+           not reassigned, rule, f'{tr.qualname}:identity',
            'the callback returns the node object it was given (Buildables) or '
            'its rebuilt container (other traversables)', ctx.loc(tr, tr.node))
   # root handling
@@ -284,9 +307,11 @@ def run(ctx: Ctx, rs: RuleSet, tier: str):
            'self.cfg', ctx.loc(rp, rp.node))
   ok = False
   for n in g.nodes():
-    if g.kind[n] == 'if' and unparse(g.stmt[n].test) == (
-        f'{rp.params[0]}._matches({rp.params[0]}.cfg)'):
-      r = g.reach([x for x, lab in g.succ[n] if lab == 'true'],
+    lab_r = roles.branch_when(g.stmt[n].test, lambda t: unparse(t) == (
+        f'{rp.params[0]}._matches({rp.params[0]}.cfg)')) if (
+            g.kind[n] == 'if') else None
+    if lab_r is not None:
+      r = g.reach([x for x, lab in g.succ[n] if lab == lab_r],
                   labels=cfg_lib.NO_EXC)
       ok = g.exit not in r and g.raise_exit in r
   rs.check(ok, rule, f'{rp.qualname}:root-match',
